@@ -2,26 +2,36 @@
 (* Trace validation for C17.  Events:                                       *)
 (*   reset {widget, enter, cb, pw, tab}   new empty widget; tab = facts     *)
 (*   op    {k, via, gs, i, text, cur, chg, sub, w, col}                     *)
-(*         the command the driver issued (k, via, gs, i) and what it then   *)
+(*         the command the driver issued (k, via, gs, i; on a deletion gs   *)
+(*         is <<>> or the segmentation fact <<l, r, j>>) and what it then   *)
 (*         observed: text (grapheme ids), cur (-1 when the widget exposes   *)
 (*         no cursor index), change/submit callback arguments in order, the *)
 (*         window width w used for Draw and the drawn cursor column col.    *)
 (*   panic {k} / hang {k}                                                   *)
 (* The oracle state is stepped with LineEdit!Next; the observed text (and   *)
-(* cursor) must be one of the allowed successors.                           *)
+(* cursor) must be one of the allowed successors.  seen = what the history  *)
+(* since the content was last replaced as a whole contains (an assignment   *)
+(* of the value, a deletion that let two graphemes join): printed with a    *)
+(* rejection, it only names the rejection.                                  *)
 EXTENDS LineEdit, TLC, Json, IOUtils
 
 Trace == ndJsonDeserialize(IOEnv.TRACE)
 
-VARIABLES l, ed, cfg, failed
-vars == <<l, ed, cfg, failed>>
+VARIABLES l, ed, cfg, failed, seen
+vars == <<l, ed, cfg, failed, seen>>
 
 NoCfg == [widget |-> "", enter |-> "keep", cb |-> FALSE, pw |-> 0, tab |-> <<>>]
-Init == l = 1 /\ ed = Empty /\ cfg = NoCfg /\ failed = FALSE
+Init == l = 1 /\ ed = Empty /\ cfg = NoCfg /\ failed = FALSE /\ seen = {}
+
+Seen(e) ==
+  IF e.k \in {"set", "reset"} \/ (e.k = "enter" /\ cfg.enter = "clear") THEN {}
+  ELSE seen \cup (IF e.k = "setval" THEN {"setval"} ELSE {})
+            \cup (IF e.k \in {"bs", "del", "delword"} /\ e.gs # <<>> THEN {"deljoin"} ELSE {})
 
 Reject(e, why, more) ==
   /\ failed' = TRUE
-  /\ PrintT("REJECT " \o ToJson([scn |-> e.scn, line |-> l, why |-> why, k |-> e.k, more |-> more]))
+  /\ PrintT("REJECT " \o ToJson([scn |-> e.scn, line |-> l, why |-> why, k |-> e.k, more |-> more,
+                                  ctx |-> IF e.ev = "op" THEN Seen(e) ELSE seen]))
 
 Matches(e, s) == s.text = e.text /\ (e.cur < 0 \/ s.cur = e.cur)
 
@@ -31,10 +41,11 @@ Next1 ==
   /\ LET e == Trace[l] IN
      IF e.ev = "reset" THEN
         /\ cfg' = [widget |-> e.widget, enter |-> e.enter, cb |-> e.cb, pw |-> e.pw, tab |-> e.tab]
-        /\ ed' = Empty /\ failed' = FALSE
-     ELSE IF failed THEN UNCHANGED <<ed, cfg, failed>>
+        /\ ed' = Empty /\ failed' = FALSE /\ seen' = {}
+     ELSE IF failed THEN UNCHANGED <<ed, cfg, failed, seen>>
      ELSE IF e.ev = "op" THEN
         /\ cfg' = cfg
+        /\ seen' = Seen(e)
         /\ LET cands == {s \in Next(cfg.tab, cfg, ed, e) : Matches(e, s)}
                want == CHOOSE s \in Next(cfg.tab, cfg, ed, e) : TRUE
            IN
@@ -52,7 +63,7 @@ Next1 ==
                                              tw |-> WidthOf(cfg.tab, s.text), prevw |-> e.pwin])
                  ELSE UNCHANGED failed
      ELSE
-        /\ UNCHANGED <<ed, cfg>>
+        /\ UNCHANGED <<ed, cfg, seen>>
         /\ Reject(e, e.ev, <<>>)
 
 Spec == Init /\ [][Next1]_vars
